@@ -342,6 +342,21 @@ impl<S: Spec> Universe<S> {
                             return fail(label, format!("Σused decreased on push: {ub} -> {ua}"));
                         }
                     }
+                    if self.cfg.heap && !self.cfg.storage {
+                        // C18 states a lower bound only (nothing omitted); what else a region may
+                        // account (statistics, bookkeeping) is not restricted by it
+                        let vals: Vec<&S::V> = self.slots[si].items.iter().map(|x| &x.1).collect();
+                        let (lo, _) = S::used_bounds(&vals);
+                        if lo > 0 {
+                            self.ev.hit("lower-bound-positive");
+                        }
+                        if ua < lo {
+                            return fail(
+                                label,
+                                format!("Σused = {ua} is below the payload+index lower bound {lo} of what is stored ({} items)", vals.len()),
+                            );
+                        }
+                    }
                     if self.cfg.storage {
                         if let Some(true) = S::stores_nothing(prev.as_ref(), v) {
                             self.ev.hit("stores-nothing-expected");
